@@ -25,12 +25,17 @@ SEED_FREE = {"KMeansL1L2", "PiecewiseClassifier", "PermutationReciprocalTransfor
              "DummyTimeSeriesRegressor"}
 
 
+# too slow on thousands of rows to be run on every change (pure-Python assignment loops); covered on the small menu only
+LARGE_SKIP = {"ConstraintKMeans"}
+
+
 def hang_sig(case):
     return "%s|refit hangs|variant %s" % (case["cls"], case["variant"])
 
 
 def bounds(tier):
-    return {"L": 2 if tier == "quick" else 3, "datasets": 5, "global_seeds": [0, 1]}
+    return {"L": 2 if tier == "quick" else 3, "datasets": 5, "global_seeds": [0, 1],
+            "large_n": [3500] if tier == "quick" else [1025, 3500, 8200]}
 
 
 def cases(tier, seed):
@@ -43,6 +48,85 @@ def cases(tier, seed):
             continue
         for v in e["variants"]:
             yield {"cls": name, "variant": v, "L": b["L"]}
+        if e["kind"] in ("reg", "clf", "cluster", "poly", "nmf", "recip") and name not in LARGE_SKIP:
+            for v in e["variants"]:
+                yield {"cls": name, "variant": v, "large": b["large_n"]}
+
+
+def _ill_conditioned(K, make, kind, dat, ref_obs, numpy):
+    """True if the model fitted on the contiguous data changes under a last-bit perturbation of the training values (an exact
+    tie between two splits / two centres): NumPy's element-wise kernels may differ by one ulp between contiguous and strided
+    input, so layout-independence is only demanded where the fit is stable under such perturbations."""
+    for target in ("y", "X"):
+        if target not in dat or getattr(dat[target], "dtype", None) is None or dat[target].dtype.kind != "f":
+            continue
+        for sgn in (1.0, -1.0):
+            d2 = dict(dat)
+            v = dat[target]
+            alt = numpy.where((numpy.arange(v.size).reshape(v.shape) % 2) == 0, sgn, -sgn)
+            d2[target] = v * (1.0 + alt * 2.0 ** -51)
+            try:
+                est = make()
+                numpy.random.seed(0)
+                K.fit(est, kind, d2)
+                o = K.observe(est, kind, dat)
+            except Exception:
+                return True
+            if K.same_obs(ref_obs, {k_: v_ for k_, v_ in o.items() if k_ != "n_iter_"}):
+                return True
+    return False
+
+
+def _large(case, K, e, kind, make, bad, viol, numpy):
+    """Seed clauses and one refit on training sets of thousands of rows (sub-sampling / block thresholds)."""
+    cls = case["cls"]
+    small = K.data(kind, 0)
+    cnt = 0
+    for n in case["large"]:
+        dat = K.data_large(kind, n)
+        P = K.probes(kind, dat)
+
+        def run(g, est=None):
+            est = make() if est is None else est
+            numpy.random.seed(g)
+            K.fit(est, kind, dat)
+            return K.observe(est, kind, dat, P)
+        cond = "n=%d rows" % n
+        try:
+            a = run(0)
+        except Exception:
+            continue          # fit-ability on large data is not this property's business
+        cnt += 1
+        try:
+            b = run(0)
+            d = K.same_obs(a, b, exact=True)
+            if d:
+                bad("two fits with the same data, parameters and global seed differ", cond, "%s variant=%s" % (d, case["variant"]))
+            rs = [v for k, v in make().get_params(deep=True).items() if k.rsplit("__", 1)[-1].endswith("random_state")]
+            if cls in SEED_FREE and all(isinstance(v, (int, numpy.integer)) for v in rs):
+                for g in (1, 2):
+                    c = run(g)
+                    cnt += 1
+                    d = K.same_obs(a, c, exact=True)
+                    if d:
+                        bad("result depends on the global NumPy seed although random_state is an integer", cond,
+                            "%s variant=%s global seeds 0 and %d" % (d, case["variant"], g))
+                        break
+            est = make()
+            numpy.random.seed(0)
+            K.fit(est, kind, small)
+            try:
+                K.observe(est, kind, small)
+            except Exception:
+                pass
+            o = run(0, est)
+            cnt += 1
+            d = K.same_obs(a, o)
+            if d:
+                bad("refitted model differs from a fresh clone fitted on the same data", cond, "%s variant=%s fit(small); fit(large)" % (d, case["variant"]))
+        except Exception as ex:
+            bad("second run raises %s" % type(ex).__name__, cond, str(ex)[:200])
+    return {"viol": viol, "nontrivial": cnt > 0, "states": cnt, "transitions": cnt, "outcome": (cls, case["variant"], "large")}
 
 
 def run_case(case):
@@ -64,6 +148,8 @@ def run_case(case):
     e = K.catalogue()[cls]
     kind = e["kind"]
     make = e["variants"][case["variant"]]
+    if "large" in case:
+        return _large(case, K, e, kind, make, bad, viol, numpy)
     nd = 5 if kind in ("reg", "clf", "cluster", "poly", "nmf", "recip") else (3 if kind in ("ts", "cat") else 2)
     D = [K.data(kind, i) for i in range(nd)]
 
@@ -82,7 +168,7 @@ def run_case(case):
                 fresh[i, g] = ("raises", "%s: %s" % (type(ex).__name__, str(ex)[:120]))
         return fresh[i, g]
 
-    cnt = trans = ntriv = 0
+    cnt = trans = ntriv = skipped_ill = 0
     # same seeds => exactly the same model; integer random_state => independent of the global seed
     for i in range(nd):
         a, b = fresh_obs(i, 0), None
@@ -106,6 +192,40 @@ def run_case(case):
                 d = K.same_obs(a[1], c[1], exact=True)
                 if d:
                     bad("result depends on the global NumPy seed although random_state is an integer", "global seed",
+                        "%s variant=%s data=%d" % (d, case["variant"], i))
+    # the training set is its values: the same X, y stored behind another memory layout (Fortran order, strided window,
+    # negative strides, transposed window, read-only) gives the same model
+    if kind in ("reg", "clf", "cluster", "poly", "nmf", "recip"):
+        for i in (0, 3):
+            a = fresh_obs(i, 0)
+            if a[0] != "ok":
+                continue
+            lx = K.layouts(D[i]["X"])[1:]
+            ly = dict(K.layouts(D[i]["y"])) if "y" in D[i] and getattr(D[i]["y"], "dtype", None) is not None and D[i]["y"].dtype.kind in "iuf" else {}
+            ymap = {"Fortran order": "column of a C-ordered table", "strided window of a larger table": "every second element",
+                    "negative strides": "negative stride", "transposed window": "column of a C-ordered table", "read-only": "read-only"}
+            for lname, Xl in lx:
+                dl = dict(D[i])
+                dl["X"] = Xl
+                if ly:
+                    dl["y"] = ly[ymap[lname]]
+                trans += 1
+                try:
+                    est = make()
+                    numpy.random.seed(0)
+                    K.fit_raw(est, kind, dl)
+                    o = K.observe(est, kind, D[i])
+                except Exception as ex:
+                    bad("fit raises %s on a non-contiguous training set that fits when contiguous" % type(ex).__name__, "memory layout",
+                        "%s layout=%s variant=%s data=%d" % (str(ex)[:200], lname, case["variant"], i))
+                    continue
+                a1 = {k_: v_ for k_, v_ in a[1].items() if k_ != "n_iter_"}     # iteration counts follow last-bit differences of BLAS kernels
+                d = K.same_obs(a1, {k_: v_ for k_, v_ in o.items() if k_ != "n_iter_"})
+                if d and _ill_conditioned(K, make, kind, D[i], a1, numpy):
+                    skipped_ill += 1
+                    continue
+                if d:
+                    bad("model depends on the memory layout of the training set", "memory layout: " + lname,
                         "%s variant=%s data=%d" % (d, case["variant"], i))
     for L in range(2, case["L"] + 1):
         for seq in itertools.product(range(nd), repeat=L):
@@ -198,4 +318,5 @@ def run_case(case):
                 d = K.same_obs({kk: v for kk, v in fo[1].items() if kk in common}, {kk: v for kk, v in o[1].items() if kk in common})
                 if d:
                     bad("refit after set_params differs from a fresh object with the same parameters", "set_params between fits", "%s %s" % (d, hdesc))
-    return {"viol": viol, "nontrivial": ntriv > 0, "states": cnt, "transitions": trans, "outcome": (cls, case["variant"])}
+    return {"viol": viol, "nontrivial": ntriv > 0, "states": cnt, "transitions": trans, "outcome": (cls, case["variant"]),
+            "counters": {"layout comparisons skipped as ill-conditioned (model changes under a 1-ulp perturbation)": skipped_ill}}
